@@ -31,8 +31,8 @@ package dns
 //@   opt no-safety
 //@   requires t != nil && q != nil
 //@   assert at "c <- &Envelope{in.Answer, nil}@1" first: q.Id == in.Id && in.Rcode == 0 && callres("isSOAFirst") && len(in.Answer) == 1
-//@   assert at "c <- &Envelope{in.Answer, nil}@2" last: q.Id == in.Id && callres("isSOALast") && !first
-//@   assert at "c <- &Envelope{in.Answer, nil}@3" more: q.Id == in.Id && !callres("isSOALast") && !first
+//@   assert at "c <- &Envelope{in.Answer, nil}@2" last: q.Id == in.Id && in.Rcode == 0 && callres("isSOALast") && !first
+//@   assert at "c <- &Envelope{in.Answer, nil}@3" more: q.Id == in.Id && in.Rcode == 0 && !callres("isSOALast") && !first
 // no silent end: between reading a message and returning, exactly one envelope is handed to the consumer, and when
 // the read failed it carries that error
 //@   ghost s0 at "in, err := t.ReadMsg()" sends()
